@@ -71,11 +71,6 @@ static const cJSON *get_fetch_id(const struct peer *p, const cJSON *request, con
 	return id;
 }
 
-static const cJSON *get_case_insensitive(const cJSON *path)
-{
-	return cJSON_GetObjectItem(path, case_insensitive);
-}
-
 static int equals_match(const struct path_matcher *pm, const char *state_path)
 {
 	return !strcmp(pm->path_elements[0], state_path);
@@ -333,13 +328,16 @@ static struct fetch *create_fetch(const struct peer *p, const cJSON *request, co
 		return NULL;
 	}
 
-	unsigned int number_of_matchers = cJSON_GetArraySize(path);
-
+	/*
+	 * Count exactly the members add_matchers() will turn into matchers:
+	 * everything but the (possibly repeated) case_insensitive option.
+	 */
+	unsigned int number_of_matchers = 0;
 	int ignore_case = 0;
-	const cJSON *match_ignore_case = get_case_insensitive(path);
-	if (match_ignore_case != NULL) {
-		number_of_matchers--;
-		if (match_ignore_case->type == cJSON_True) {
+	for (const cJSON *member = path->child; member != NULL; member = member->next) {
+		if (strncmp(member->string, case_insensitive, sizeof(case_insensitive)) != 0) {
+			number_of_matchers++;
+		} else if (member->type == cJSON_True) {
 			ignore_case = 1;
 		}
 	}
